@@ -14,6 +14,11 @@ from props import c26_sweep as S
 MODE = 1      # 1 = the committed model follows the FIXED code (/repo fix commits 50629ec, ef452d1 + fixes/C26-arrayreduction-tmp-after-validate.patch)
 
 
+def common_repo():
+    import common
+    return common.REPO
+
+
 def _apply(trans, args, options):
     from psyclone.psyir.transformations import TransformationError
     try:
@@ -346,3 +351,113 @@ def case_alg(cname, flags, on_root):
             "impl": sx([1 if out == "accepted" else 0, raised]),
             "changed": before != after, "refused": out == "refused", "desc": [cname, path, None],
             "program": prog.spec}
+
+
+# ---------------------------------------------------------------------------------------------
+# GOceanExtractTrans / LFRicExtractTrans: region-name counter, driver file
+def case_extract(spec, cname, path_kind, create_driver):
+    """target = first loop of the invoke (`path_kind` "loop") or a non-schedule node ("bad": get_node_list refuses)"""
+    import os
+    from psyclone.psyir.nodes import Loop, ExtractNode
+    from psyclone.psyir.transformations.psy_data_trans import PSyDataTrans
+    prog = S.Program(spec, common_repo())
+    cls = S.trans_by_name(cname)
+    opts = {"create_driver": True} if create_driver else None
+    t0 = prog.fresh()
+    loop0 = t0.root.walk(Loop)[0]
+    target0 = loop0 if path_kind == "loop" else loop0.children[0]
+    nodes_ok = True
+    try:
+        cls().get_node_list(target0)
+    except Exception:  # pylint: disable=broad-except
+        nodes_ok = False
+    valid = _validate(cls(), ([target0] if nodes_ok else target0,), opts) if nodes_ok else False
+    if valid is None:
+        return None
+    tree = prog.fresh()
+    loop = tree.root.walk(Loop)[0]
+    target = loop if path_kind == "loop" else loop.children[0]
+    path = S.path_of(target, tree.root)
+    before = S.snapshot(tree)
+    total0 = sum(PSyDataTrans._used_kernel_names.values())
+    files0 = set(os.listdir("."))
+    out = _apply(cls(), (target,), opts)
+    if out.startswith("error"):
+        return None
+    after = S.snapshot(tree)
+    total1 = sum(PSyDataTrans._used_kernel_names.values())
+    driver = any(f.startswith("driver-") for f in set(os.listdir(".")) - files0)
+    region = bool(tree.root.walk(ExtractNode))
+    return {"line": sx(["ext", MODE, create_driver, nodes_ok, valid, total0]),
+            "impl": sx([1 if out == "accepted" else 0, total1, driver, region]),
+            "changed": before != after, "refused": out == "refused", "desc": [cname, path, opts],
+            "program": spec}
+
+
+# ---------------------------------------------------------------------------------------------
+# KernelModuleInlineTrans
+def case_kmi(variant):
+    """variant: "first" (no routine of that name yet), "same" (second call, first copy untouched),
+    "different" (second call, first inlined copy transformed by ACCRoutineTrans meanwhile)"""
+    from psyclone.psyGen import CodedKern
+    from psyclone.psyir.backend.fortran import FortranWriter
+    spec = {"kind": "psy", "api": "gocean1.0", "file": "gocean1p0/single_invoke_two_identical_kernels.f90",
+            "dm": False}
+    base = S.Program(spec, common_repo()).fresh()
+    kerns = base.root.walk(CodedKern)
+    p1, p2 = S.path_of(kerns[0], base.root), S.path_of(kerns[1], base.root)
+    pre = {"first": [], "same": [["KernelModuleInlineTrans", "", ["node", p1], None]],
+           "different": [["KernelModuleInlineTrans", "", ["node", p1], None],
+                         ["ACCRoutineTrans", "", ["node", p1], None]]}[variant]
+    spec2 = dict(spec, pre=pre) if pre else spec
+    prog = S.Program(spec2, common_repo())
+    path = p1 if variant == "first" else p2
+    tree = prog.fresh()
+    kern = S.resolve(tree.root, path)
+    valid = _validate(S.trans_by_name("KernelModuleInlineTrans")(), (kern,), None)
+    if valid is None:
+        return None
+    tree = prog.fresh()
+    kern = S.resolve(tree.root, path)
+    before = S.snapshot(tree)
+    ks0 = FortranWriter()(kern.get_kernel_schedule())
+    out = _apply(S.trans_by_name("KernelModuleInlineTrans")(), (kern,), None)
+    if out.startswith("error"):
+        return None
+    after = S.snapshot(tree)
+    try:
+        prepared = FortranWriter()(kern.get_kernel_schedule()) != ks0
+    except Exception:  # pylint: disable=broad-except
+        prepared = True
+    return {"line": sx(["kmi", variant != "first", variant != "different", valid]),
+            "impl": sx([1 if out == "accepted" else 0, prepared, out == "accepted"]),
+            "changed": before != after, "refused": out == "refused",
+            "desc": ["KernelModuleInlineTrans", path, None], "program": spec2}
+
+
+# ---------------------------------------------------------------------------------------------
+# Sign2CodeTrans
+def case_sign(prog, path):
+    from psyclone.psyir.nodes import Routine
+    cls = S.trans_by_name("Sign2CodeTrans")
+    t0 = prog.fresh()
+    node = S.resolve(t0.root, path)
+    valid = _validate(cls(), (node,), None)
+    if valid is None:
+        return None
+    tree = prog.fresh()
+    node = S.resolve(tree.root, path)
+    rt = node.ancestor(Routine) if hasattr(node, "ancestor") else None
+    if rt is None:
+        return None
+    names0 = set(rt.symbol_table.symbols_dict)
+    before = S.snapshot(tree)
+    out = _apply(cls(), (node,), None)
+    if out.startswith("error"):
+        return None
+    after = S.snapshot(tree)
+    new = [n for n in rt.symbol_table.symbols_dict if n not in names0]
+    expanded = any(n.startswith("res_abs") or n.startswith("tmp_abs") for n in new)
+    finished = any(n.startswith("tmp_sign") for n in new) and before != after
+    return {"line": sx(["sign", valid]), "impl": sx([1 if out == "accepted" else 0, expanded, finished]),
+            "changed": before != after, "refused": out == "refused", "desc": ["Sign2CodeTrans", path, None]}
